@@ -5,7 +5,8 @@ ring enumerators/generators and Gallina literal printers.
 A *ring description* is JSON-able:
   layout : [[dc, rack], ...]   one entry per host id 0..H-1 (small ints)
   ring   : [[token, host], ...]  distinct integer tokens (any order; the driver sorts)
-A *strategy description* is ['simple', '<rf string>'] or ['nts', {'<dc>': '<rf string>', ...}]  (rf string 'N' or 'N/T').
+A *strategy description* is ['simple', '<rf string>'] or ['nts', {'<dc>': '<rf string>', ...}]  (rf string 'N' or 'N/T');
+in histories also ['local'] and ['unknown', '<class name>'] (no placement known to the driver: not judged, but cached).
 """
 import itertools
 
@@ -64,11 +65,7 @@ class Impl(object):
 
     def set_keyspace(self, name, strat):
         """create or replace the keyspace metadata; returns the driver's ReplicationStrategy object"""
-        from cassandra.metadata import KeyspaceMetadata
-        if strat[0] == 'simple':
-            ks = KeyspaceMetadata(name, True, 'SimpleStrategy', {'replication_factor': strat[1]})
-        else:
-            ks = KeyspaceMetadata(name, True, 'NetworkTopologyStrategy', dict(('dc%s' % d, v) for d, v in strat[1].items()))
+        ks = keyspace_meta(name, strat)
         existed = name in self.meta.keyspaces
         self.meta.keyspaces[name] = ks
         if existed:
@@ -109,7 +106,16 @@ def keyspace_meta(name, strat):
     from cassandra.metadata import KeyspaceMetadata
     if strat[0] == 'simple':
         return KeyspaceMetadata(name, True, 'SimpleStrategy', {'replication_factor': strat[1]})
+    if strat[0] == 'local':
+        return KeyspaceMetadata(name, True, 'org.apache.cassandra.locator.LocalStrategy', {})
+    if strat[0] == 'unknown':      # a strategy class the driver has no placement for: it caches an EMPTY replica map
+        return KeyspaceMetadata(name, True, strat[1], {'k': 'v'})
     return KeyspaceMetadata(name, True, 'NetworkTopologyStrategy', dict(('dc%s' % d, v) for d, v in strat[1].items()))
+
+
+def placed(strat):
+    """does the statement say anything about these settings (SimpleStrategy / NetworkTopologyStrategy only)"""
+    return strat is not None and strat[0] in ('simple', 'nts')
 
 
 def play_history(layout, ring, history, queries, ks='ks'):
